@@ -89,6 +89,15 @@ CHECKS = {
 }
 
 NOT_YET = {}
+HISTORY = {"C%02d" % i for i in range(1, 15)}
+EXTRA = {
+    "C06": "; both accumulation entry points (from_signatures, TryFrom<&[Signature]>) must agree",
+    "C07": "; both accumulation entry points (from_signatures, TryFrom<&[Signature]>) must agree",
+    "C16": "; sibling payloads (a non-subgroup point sharing half its encoding with the valid payload decoded just before)",
+    "C17": "; cancellation catalogue (well-formed inputs crafted so that a derived point / scalar is the identity / zero)",
+    "C18": "; second corpus (46 artefacts: custom ElGamal generator, identifiers 254/255, 40-signer aggregates, long payloads)",
+    "C20": "; argument classes (every scheme, identifier / message lengths around 32 and 64 bytes, edge plaintexts, several (t,n))",
+}
 
 def main():
     props = [json.loads(l) for l in open(os.path.join(HERE, "properties.jsonl"))]
@@ -98,6 +107,13 @@ def main():
         pid = p["id"]
         if pid in CHECKS:
             tech, text, note, ref = CHECKS[pid]
+            if pid in HISTORY:
+                tech += "; history-independence sequences (clusters of related questions with known answers asked in ordered pairs as a,b,b,a)"
+                text += " History clusters: the honest question and its single-component variants are asked in ordered pairs (a,b) as a,b,b,a and every answer must equal the answer the question has on its own."
+            if pid in EXTRA:
+                tech += EXTRA[pid]
+            if pid != "C19":
+                text += " The workload runs in the plain release build and in the build with debug assertions and overflow checks, in both tiers."
             checks.append({
                 "property_id": pid,
                 "quick_cmd": f"./check {pid} --tier quick",
